@@ -8,7 +8,7 @@ import asyncio
 import json
 import logging
 from datetime import timedelta
-from typing import Any
+from typing import Annotated, Any
 
 from . import vloop
 from .record import Recorder, inmem_projector, inmem_signature
@@ -109,6 +109,7 @@ async def run_worker(loop, sc: dict, make=None, projector=inmem_projector, signa
     from repid import (BasicConverter, Connection, InMemoryBucketBroker, InMemoryMessageBroker, Job,
                        MessageDependency, Router, RouterDefaults, Worker)
     from repid.converter import PydanticConverter
+    from repid.dependencies import Depends
 
     rec = WorkerRecorder(latency_us=latency_us)
     be = None
@@ -195,13 +196,25 @@ async def run_worker(loop, sc: dict, make=None, projector=inmem_projector, signa
     seen_args = []
 
     def make_actor(name: str, variant: str):
-        async def run_script(jid: str, m):
+        def next_what(jid):
+            job = jobs[jid]
+            att = attempts[jid]
+            script = job.get("script", ["ok"])
+            return script[att] if att < len(script) else job.get("then", "ok")
+
+        async def run_script(jid: str, m, in_guard: bool = False):
             job = jobs[jid]
             i = rec.mid(jid)
             att = attempts[jid]
             attempts[jid] += 1
             script = job.get("script", ["ok"])
             what = script[att] if att < len(script) else job.get("then", "ok")
+            if in_guard:
+                what = "e_" + what[2:]        # `g_ack+res': the eager response is made by a dependency of the actor, not by its body
+            elif what.startswith("g_"):
+                # the body runs although a dependency has already answered for this delivery: the worker must never get here
+                rec.exec_log.append({"id": jid, "after_eager": True, "body_after_guard": True})
+                what = "ok"
             durs = job.get("dur_ms", [0])
             dur = durs[min(att, len(durs) - 1)]
             rec.in_body[i] = rec.in_body.get(i, 0) + 1
@@ -271,6 +284,26 @@ async def run_worker(loop, sc: dict, make=None, projector=inmem_projector, signa
             async def fn(jid, m):
                 return await run_script(jid, m)
             fn.__annotations__ = {"jid": str, "m": MessageDependency}   # real objects, not strings
+        elif variant in ("guard", "guardn"):
+            # a dependency of the actor (directly, or nested in another dependency) holds the message handle and may answer
+            # eagerly (`g_<op>' in the job's script) before the body runs: the delivery ends there, the body is not executed
+            async def guard(m):
+                jid = json.loads(m.raw_payload)["jid"]
+                if next_what(jid).startswith("g_"):
+                    await run_script(jid, m, in_guard=True)
+                return "passed"
+            guard.__annotations__ = {"m": MessageDependency}
+            if variant == "guardn":
+                async def outer(g):
+                    return g
+                outer.__annotations__ = {"g": Annotated[str, Depends(guard)]}
+                top = outer
+            else:
+                top = guard
+
+            async def fn(jid, g):
+                return await run_script(jid, None)
+            fn.__annotations__ = {"jid": str, "g": Annotated[str, Depends(top)]}
         elif variant == "noargs":
             async def fn():   # used by the empty-payload scenarios (jid taken from a side table)
                 return await run_script(sc["noargs_jid"], None)
